@@ -431,4 +431,89 @@ theorem change_recorded (g : G) (t : Tid) (k : Key) (x : Nat)
             all_goals (rename_i todo; cases todo <;> first | rfl | exact absurd ⟨_, _, _, rfl⟩ c2)
           rw [hl]; simp [specLin]
 
+
+/-- the payload of a record is sound for the state right after the region: every actor reported as
+joined is a member, every actor reported as having left is not -/
+def PayloadOk (st' : State) (p : Pending) : Prop :=
+  ∀ x ∈ p.actors, (p.isJoin = true → x ∈ membersOf st' (p.s, p.g)) ∧ (p.isJoin = false → x ∉ membersOf st' (p.s, p.g))
+
+theorem payload_step (g : G) (t : Tid) :
+    ∃ new, (step g t).changes = g.changes ++ new ∧ ∀ p ∈ new, PayloadOk (step g t).st p := by
+  have triv : ∀ st', ∃ new, g.changes = g.changes ++ new ∧ ∀ p ∈ new, PayloadOk st' p :=
+    fun _ => ⟨[], by simp, by simp⟩
+  cases t with
+  | ex b r =>
+    by_cases hs : exSkip g b r
+    · rw [step_ex_skip g b r hs]; exact triv _
+    · rw [step_ex g b r hs]
+      refine ⟨_, rfl, ?_⟩
+      intro p hp
+      cases r with
+      | lvKey k =>
+        cases hph : phaseOf g b with
+        | leaving mk rm =>
+          rw [hph] at hp
+          simp only [exRecs] at hp
+          split at hp
+          · next c =>
+            unfold leaveKey at hp
+            split at hp
+            · simp only [Option.map_some, Option.toList_some, List.mem_singleton] at hp
+              subst hp
+              intro x hx
+              simp only [recPending, List.mem_singleton] at hx
+              subst hx
+              refine ⟨(fun h => by cases h), fun _ => ?_⟩
+              show x ∉ membersOf (fstep x ⟨g.st, Phase.leaving mk rm⟩ (ExReg.lvKey k).toFOp).st (k.1, k.2)
+              simp only [ExReg.toFOp, fstep, c, ↓reduceIte]
+              rw [(trans_leaveKey g.st x k).m]; simp [leaveKeyEff]
+            · simp at hp
+          · simp at hp
+        | _ => rw [hph] at hp; simp [exRecs] at hp
+      | _ => simp [exRecs] at hp
+  | call i =>
+    cases hp : g.thr[i]? with
+    | none => rw [step_call_none g i hp]; exact triv _
+    | some pc =>
+      by_cases hb : blocked g pc
+      · rw [step_call_blocked g i pc hp hb]; exact triv _
+      · by_cases c1 : ∃ s g' as, pc = .joinFiltered s g' as
+        · obtain ⟨s, g', as, rfl⟩ := c1
+          rw [step_call_lock g i s g' as hp hb]; exact triv _
+        · by_cases c2 : ∃ s g' as todo, pc = .joinIn s g' as todo
+          · obtain ⟨s, g', as, todo, rfl⟩ := c2
+            cases todo with
+            | nil =>
+              rw [step_call_commit g i s g' as hp]
+              refine ⟨_, rfl, ?_⟩
+              intro p hp'
+              unfold commitRec at hp'
+              split at hp'
+              · simp at hp'
+              · simp only [Option.toList_some, List.mem_singleton] at hp'
+                subst hp'
+                intro x hx
+                refine ⟨fun _ => ?_, (fun h => by cases h)⟩
+                exact (joinCommit_members g.st (s, g') _ (s, g') x).mpr (Or.inr ⟨rfl, hx⟩)
+            | cons y todo => rw [step_call_one g i s g' as y todo hp]; exact triv _
+          · have h1 : ∀ s g' as, pc ≠ .joinFiltered s g' as := fun s g' as e => c1 ⟨s, g', as, e⟩
+            have h2 : ∀ s g' as todo, pc ≠ .joinIn s g' as todo := fun s g' as todo e => c2 ⟨s, g', as, todo, e⟩
+            rw [step_call_other g i pc hp hb h1 h2]
+            refine ⟨_, rfl, ?_⟩
+            intro p hp'
+            cases pc with
+            | leave s g' as =>
+              simp only [callStep, leaveEntry] at hp'
+              split at hp'
+              · simp at hp'
+              · next gs hg =>
+                simp only [Option.toList_some, List.mem_singleton] at hp'
+                subst hp'
+                intro x hx
+                refine ⟨(fun h => by cases h), fun _ => ?_⟩
+                show x ∉ membersOf (leaveEntry g.st s g' as).1 (s, g')
+                rw [leaveEntry_some g.st s g' as hg, leave_members g.st s g' as hg]
+                exact fun h => h.2 ⟨rfl, hx⟩
+            | _ => simp [callStep] at hp'
+
 end Pg.Conc
